@@ -197,7 +197,7 @@ Proof. intros. destruct a; simpl; auto. Qed.
 Lemma parse_root_toks : forall pn a, wfb pn a = true -> parse_root (toks_of pn a ++ [TEOF]) = Ok a.
 Proof.
   intros pn a W.
-  assert (E : parse_or (length (toks_of pn a ++ [TEOF])) (toks_of pn a ++ [TEOF]) = Ok (a, [TEOF])).
+  assert (E : parse_or (S (length (toks_of pn a ++ [TEOF]))) (toks_of pn a ++ [TEOF]) = Ok (a, [TEOF])).
   { unfold parse_or, parse_or_with. apply or_single; [|exact I]. apply and_single; [|exact I].
     apply parse_toks; auto. rewrite app_length. pose proof (size_le_toks pn a). lia. }
   unfold parse_root. pose proof (toks_nonempty_not_eof pn a [TEOF]) as NE.
